@@ -79,6 +79,21 @@ pub fn judge_assoc() -> Verdict {
     if mn.hi().to_bits() != (-f64::MAX).to_bits() || mn.lo().to_bits() != (-lo).to_bits() || !mn.is_valid() {
         return Verdict::fail("MIN", "assoc", &args, show_dd([mn.hi(), mn.lo()]), format!("smallest finite valid value ({}, {})", hexf(-f64::MAX), hexf(-lo)), "wrong_constant");
     }
+    // ... "largest / smallest finite values for which is_valid() can hold": nothing beyond them is accepted as valid,
+    // neither by is_valid() nor by the checked constructors
+    {
+        use core::convert::TryFrom;
+        for beyond in [crate::util::next_up(lo), 2f64.powi(970), 2f64.powi(971), 1e300, f64::MAX] {
+            for s in [1.0, -1.0] {
+                let w = [s * f64::MAX, s * beyond];
+                let v = crate::api::st::mk(w);
+                let accepted = v.is_valid() || TF::try_from((w[0], w[1])).is_ok() || TF::try_from(w).is_ok() || twofloat::no_overlap(w[0], w[1]);
+                if accepted {
+                    return Verdict::fail(if s > 0.0 { "MAX" } else { "MIN" }, "assoc", &args, format!("{} is accepted as valid (is_valid / try_from / no_overlap)", show_dd(w)), "no valid value beyond MAX / MIN".into(), "wrong_constant");
+                }
+            }
+        }
+    }
     let mp = TF::MIN_POSITIVE;
     if !(mp.hi() == f64::MIN_POSITIVE && mp.lo() == 0.0) {
         return Verdict::fail("MIN_POSITIVE", "assoc", &args, show_dd([mp.hi(), mp.lo()]), "2^-1022".into(), "wrong_constant");
